@@ -238,3 +238,78 @@ Proof.
               wg_site d_site R R_begin R_site R_step wg_init progs sched) as (H1 & H2 & _).
   split; symmetry; assumption.
 Qed.
+
+(* ================================================================ the pinned code *)
+Notation DBo := (d_begin shared_o wgo_mem wgo_init hand_prog_orig).
+Notation DMo := (d_mstep shared_o wgo_mem).
+Notation DSo := (dstep shared_o wgo_mem).
+
+Definition ko100 : list item := Eval vm_compute in d_k (DBo (CAdd 0)).
+Definition ko101 : list item := Eval vm_compute in park_k (DSo (DBo (CAdd 0)) wgo_init).
+Definition ko102 : list item :=
+  Eval vm_compute in
+    park_k (DSo (loc_of (DSo (DBo (CAdd 0)) wgo_init)) (SharedO 0 1%nat [0%nat] 2)).
+Definition ko103 : list item := Eval vm_compute in park_k (DSo (DBo (CAdd 1)) wgo_init).
+Definition ko104 : list item :=
+  Eval vm_compute in
+    park_k (DSo (loc_of (DSo (DBo (CAdd 1)) wgo_init)) (SharedO 1 1%nat [0%nat] 2)).
+Definition ko200 : list item := Eval vm_compute in d_k (DBo CWait).
+Definition ko201 : list item := Eval vm_compute in park_k (DSo (DBo CWait) wgo_init).
+Definition ko300 : list item := Eval vm_compute in d_k (DBo CCount).
+
+Definition dlo_A0 (d : Z) : dloc := DLoc [("v1", VInt d)] ko100.
+Definition dlo_A1 (d n : Z) : dloc := DLoc [("v1", VInt d); ("v2", VInt n)] ko101.
+Definition dlo_A2 (d : Z) (x : nat) (n : Z) : dloc :=
+  DLoc [("v1", VInt d); ("v2", VInt n); ("v3", VPtrChan (Some x))] ko102.
+Definition dlo_A3 (d n : Z) : dloc :=
+  DLoc [("v1", VInt d); ("v2", VInt n); ("v4", VChan None)] ko103.
+Definition dlo_A4 (d n : Z) : dloc :=
+  DLoc [("v1", VInt d); ("v2", VInt n); ("v4", VChan None)] ko104.
+Definition dlo_W0 : dloc := DLoc [] ko200.
+Definition dlo_W1 (c : Z) : dloc := DLoc [("v1", VInt c)] ko201.
+Definition dlo_C0 : dloc := DLoc [] ko300.
+
+Definition Ro (c : call) (l : loc_o) (dl : dloc) : Prop :=
+  match c, l with
+  | CAdd d, OA0 => dl = dlo_A0 d
+  | CAdd d, OA1 n => dl = dlo_A1 d n
+  | CAdd d, OA2 x n => dl = dlo_A2 d x n
+  | CAdd d, OA3 n => dl = dlo_A3 d n
+  | CAdd d, OA4 n => dl = dlo_A4 d n
+  | CWait, OW0 => dl = dlo_W0
+  | CWait, OW1 c0 => dl = dlo_W1 c0
+  | CCount, OC0 => dl = dlo_C0
+  | _, _ => False
+  end.
+
+Lemma Ro_begin : forall c, Ro c (wgo_begin c) (DBo c).
+Proof. intros [d| |]; reflexivity. Qed.
+
+Lemma Ro_site : forall c l dl, Ro c l dl -> wgo_site c l = d_site c dl.
+Proof.
+  intros c l dl H. destruct c; destruct l; simpl in H; try contradiction; subst; reflexivity.
+Qed.
+
+Ltac dno_unfold :=
+  unfold step_rel, d_mstep, dstep, FUEL, dlo_A0, dlo_A1, dlo_A2, dlo_A3, dlo_A4, dlo_W0, dlo_W1,
+         dlo_C0, ko100, ko101, ko102, ko103, ko104, ko200, ko201, ko300, o_close, memb.
+
+Lemma Ro_step : forall c l dl s, Ro c l dl ->
+  step_rel shared_o loc_o dloc call ret Ro c (wgo_mstep c l s) (DMo c dl s).
+Proof.
+  intros c l dl [n ch cl nx] H.
+  destruct c as [d| |]; destruct l; simpl in H; try contradiction; subst dl;
+    dno_unfold; cbn; dno_unfold; cbn;
+    repeat dn_if; dn_absurd; (split; [reflexivity|]); reflexivity.
+Qed.
+
+Theorem denote_pinned : forall progs sched,
+  sh (dwgo_exec hand_prog_orig progs sched) = sh (wgo_exec progs sched) /\
+  tr (dwgo_exec hand_prog_orig progs sched) = tr (wgo_exec progs sched).
+Proof.
+  intros progs sched.
+  destruct (sim_exec shared_o loc_o dloc call ret obs wgo_begin DBo wgo_mstep DMo wg_fatal
+              wgo_observe wgo_site d_site Ro Ro_begin Ro_site Ro_step wgo_init progs sched)
+    as (H1 & H2 & _).
+  split; symmetry; assumption.
+Qed.
